@@ -23,7 +23,7 @@ inline std::string describe(const Prog &p) {
         d << " " << opn[o.code];
         if (o.code == 0 || o.code == 9 || o.code == 7) d << "(" << (o.a % 4 == 3 ? std::string("until cancelled") : std::to_string(1 + o.a % 4) + " values") << ")";
         if (o.code == 1) d << "(true x" << (unsigned)(o.a % 4) << " then false)";
-        if (o.code == 10) d << "(listener wants " << (o.a % 4 == 3 ? std::string("every value") : std::to_string(1 + o.a % 4)) << ", " << (unsigned)(o.b % 5) << " values emitted, then the collector is dropped)";
+        if (o.code == 10) d << "(listener wants " << (o.a % 4 == 3 ? std::string("every value") : std::to_string(1 + o.a % 4)) << ", " << (unsigned)(o.b % 5) << " values emitted, then the collector is dropped" << (((o.b / 5) & 1) ? "; the registration function itself emits one value first" : "") << ")";
     }
     d << "; drop all handles";
     return d.s;
@@ -123,10 +123,15 @@ struct Run {
     }
     // hook_up: the first co_await creates a signal of its own, suspends the coroutine on it and only then hands the
     // collector to the registration function - the very first emission must not be missed
-    std::optional<typename S::collector> hooked;
+    std::optional<typename S::collector> hooked; bool hook_emit_in_reg = false;
     cocls::async<void> hook_listener(LRec *pr) {
         LRec &r = *pr;
-        auto e = S::hook_up([this](typename S::collector c) { hooked.emplace(std::move(c)); });
+        // the registration function may emit at once through the collector it is handed (a generator that replays its
+        // current value to a new subscriber): the listener is already waiting by then and must receive that value
+        auto e = S::hook_up([this](typename S::collector c) {
+            hooked.emplace(std::move(c));
+            if (hook_emit_in_reg) { if constexpr (VOID) (*hooked)(); else (*hooked)(int(898)); }
+        });
         for (int i = 0; r.want < 0 || i < r.want; i++) {
             try {
                 if constexpr (VOID) { co_await e; r.got.push_back(-1); }
@@ -135,14 +140,16 @@ struct Run {
         }
         r.left = true;
     }
-    void hook_episode(int want, int emit_n) {
+    void hook_episode(int want, int emit_n, bool emit_in_reg) {
         size_t id = L.size();
         L.emplace_back(); LRec &r = L[id]; r.want = want; r.active = false;      // not reached by the main signal's emissions
+        hook_emit_in_reg = emit_in_reg;
+        if (emit_in_reg) { r.expect.push_back(VOID ? -1 : 898); if (want > 0) want--; }
         hook_listener(&r).detach();
         HZ_CHECK(hooked.has_value(), "hook_up did not call the registration function when the coroutine suspended on it");
         for (int k = 0; k < emit_n; k++) {
             int v = VOID ? -1 : 900 + k;
-            if (want < 0 || k < want) r.expect.push_back(v);
+            if (want < 0 || k < want) r.expect.push_back(v);        // (want: what the listener still wants after a value emitted by the registration function)
             if constexpr (VOID) (*hooked)(); else (*hooked)(int(v));
         }
         hooked.reset();                                  // last handle: a listener still waiting is cancelled
@@ -209,7 +216,7 @@ void run_t(const Prog &p) {
                     else if (R.cols.size() > 0 && (R.sigs.size() + R.cols.size() > 1 || (o.b & 3) == 0)) R.cols.erase(R.cols.begin() + (long)(o.b % R.cols.size()));
                     if (!R.has_handles()) R.disconnect_model();
                 } break;
-                case 10: R.hook_episode(o.a % 4 == 3 ? -1 : 1 + o.a % 4, o.b % 5); break;
+                case 10: R.hook_episode(o.a % 4 == 3 ? -1 : 1 + o.a % 4, o.b % 5, (o.b / 5) & 1); break;
                 case 7: threaded = true; R.add_listener(o.a % 4 == 3 ? -1 : 1 + o.a % 4, true, (o.b & 1) && !R.pending_thread.joinable()); break;
             }
             if (!R.pending_thread.joinable()) R.compare(opn[o.code]);
